@@ -1251,8 +1251,10 @@ func (x *Exec) typeAssert(st *State, in *ssa.TypeAssert, set func(ssa.Value, Val
 					ok = fmt.Sprintf("((_ is mk_%s) %s)", si.Name, vt)
 				}
 			case *types.Interface:
-				if srcSort == "Err" && ts == "Err" {
-					if nt.Obj().Name() == "multiUnwrapper" {
+				if srcSort == "Err" && ts != "Err" {
+					limitf("type assertion of an error to interface %v", at)
+				} else if srcSort == "Err" && ts == "Err" {
+					if isMultiUnwrapper(u) {
 						ok = fmt.Sprintf("((_ is EJoin) %s)", vt)
 					} else if isErrorType(nt) {
 						ok = fmt.Sprintf("(not (= %s ErrNil))", vt)
@@ -1262,7 +1264,7 @@ func (x *Exec) typeAssert(st *State, in *ssa.TypeAssert, set func(ssa.Value, Val
 				} else if srcSort == "Node" && ts == "Node" {
 					tk := U.typeOK(vt, at)
 					ok = fmt.Sprintf("(and (not (= %s nilN)) %s)", vt, tk)
-					_ = u
+
 				} else {
 					ok = "false"
 				}
